@@ -26,7 +26,7 @@ open S3V S3V.FsWrite
 
 /-- the conclusion of all-or-nothing for `put_object` at fault position `k` (= the request future is dropped, or
     the call returns an error, after `k` steps of the program
-    `create, adopt, frame₁ … frameₙ, flush, check, mkdirs, rename, [saveMeta], saveInfo`).
+    `create, adopt, frame₁ … frameₙ, flush, check, mkdirs, rename, saveMeta | dropMeta, saveInfo`).
     The positions inside `FileWriter::done()` are explicit: `k = n + 4` — `done()` entered, nothing awaited yet;
     `k = n + 5` — `create_dir_all(parent)` finished, rename not yet issued; `k = n + 6` — rename done. -/
 def AllOrNothingAt (c : Cfg) (old : Option Bytes) (m i : Side) (k : Nat) : Prop :=
@@ -55,7 +55,7 @@ theorem C19_write_all_or_nothing_partial (c : Cfg) (old : Option Bytes) (m i : S
   simp only [dropAfter_eq, putObjectProg_eq]
   rcases create_adopt_then (rest := c.frames.map .frame ++
       ([.flush, .check c.checksumsEqual, .mkdirs c.mkdirsFails, .rename c.renameFails] ++
-        (if c.hasMeta then [.saveMeta c.metaFails] else []) ++ [.saveInfo c.infoFails]))
+        (if c.hasMeta then [.saveMeta c.metaFails] else [.dropMeta c.metaFails]) ++ [.saveInfo c.infoFails]))
       (s := initSt old m i) ⟨rfl, rfl⟩ k hk with ⟨_, h⟩ | ⟨k', rfl, h⟩
   · rw [h]; simp [initSt]
   · rw [h]
@@ -75,7 +75,7 @@ theorem C19_sidefiles_never_ahead (c : Cfg) (old : Option Bytes) (m i : Side) (k
   simp only [dropAfter_eq, putObjectProg_eq]
   rcases create_adopt_then (rest := c.frames.map .frame ++
       ([.flush, .check c.checksumsEqual, .mkdirs c.mkdirsFails, .rename c.renameFails] ++
-        (if c.hasMeta then [.saveMeta c.metaFails] else []) ++ [.saveInfo c.infoFails]))
+        (if c.hasMeta then [.saveMeta c.metaFails] else [.dropMeta c.metaFails]) ++ [.saveInfo c.infoFails]))
       (s := initSt old m i) ⟨rfl, rfl⟩ k hk with ⟨_, h⟩ | ⟨k', rfl, h⟩
   · rw [h]; simp [initSt]
   · rw [h]
@@ -100,7 +100,7 @@ theorem C19_failed_upload_changes_nothing (c : Cfg) (old : Option Bytes) (m i : 
   simp only [run, exec]
   obtain ⟨p, a, hr⟩ := run_frames c.frames
     ([.flush, .check c.checksumsEqual, .mkdirs c.mkdirsFails, .rename c.renameFails] ++
-      (if c.hasMeta then [.saveMeta c.metaFails] else []) ++ [.saveInfo c.infoFails])
+      (if c.hasMeta then [.saveMeta c.metaFails] else [.dropMeta c.metaFails]) ++ [.saveInfo c.infoFails])
     { initSt old m i with tmp := true, owned := true }
   rw [hr]
   cases hab : allBytes c.frames with
@@ -116,20 +116,21 @@ theorem C19_failed_upload_changes_nothing (c : Cfg) (old : Option Bytes) (m i : 
         cases c.infoFails <;> simp [run, exec, cleanup, initSt]
 
 /-- **A successful `put_object` stores everything.** No fault: the answer is OK, the destination holds all body
-    bytes, the checksum record is new, the metadata is new iff the request carried metadata, no temporary file. -/
+    bytes, the checksum record is new, the metadata is the request's — new if it carried metadata, none otherwise
+    (a previous object's metadata does not survive) —, no temporary file. -/
 theorem C19_successful_write_complete (c : Cfg) (old : Option Bytes) (m i : Side) (all : Bytes)
     (hb : allBytes c.frames = some all) (h1 : c.checksumsEqual = true) (h2 : c.renameFails = false)
     (h3 : c.metaFails = false) (h4 : c.infoFails = false) (h5 : c.mkdirsFails = false) :
     (run (putObjectProg c) (initSt old m i)).1 = .ok ∧
     (run (putObjectProg c) (initSt old m i)).2.dest = some all ∧
     (run (putObjectProg c) (initSt old m i)).2.tmp = false ∧
-    (run (putObjectProg c) (initSt old m i)).2.mdata = (if c.hasMeta then .new else m) ∧
+    (run (putObjectProg c) (initSt old m i)).2.mdata = (if c.hasMeta then .new else .absent) ∧
     (run (putObjectProg c) (initSt old m i)).2.info = .new := by
   rw [putObjectProg_eq]
   simp only [run, exec]
   obtain ⟨p, a, hr⟩ := run_frames c.frames
     ([.flush, .check c.checksumsEqual, .mkdirs c.mkdirsFails, .rename c.renameFails] ++
-      (if c.hasMeta then [.saveMeta c.metaFails] else []) ++ [.saveInfo c.infoFails])
+      (if c.hasMeta then [.saveMeta c.metaFails] else [.dropMeta c.metaFails]) ++ [.saveInfo c.infoFails])
     { initSt old m i with tmp := true, owned := true }
   rw [hr, hb, h1, h2, h3, h4, h5]
   cases c.hasMeta <;> simp [run, exec, cleanup, initSt]
